@@ -101,6 +101,15 @@ pub mod ctx {
     }
 }
 
+/// see Reader::new
+#[cfg(kani)]
+pub mod verif_hooks {
+    pub static mut READERS: u32 = 0;
+    pub static mut CUT_AT: u32 = 0;
+    pub static mut CUT_EXPECTED: bool = true;
+    pub static mut CUT_REACHED: bool = false;
+}
+
 pub mod error {
     use alloc::borrow::Cow;
     pub use crate::no_std_io::ErrorKind;
@@ -199,6 +208,19 @@ pub mod reader {
     impl<'a, R: Read + Seek> Reader<'a, R> {
         #[inline]
         pub fn new(inner: &'a mut R) -> Self {
+            // verification hook (Kani build only): a harness may end every path at the N-th reader
+            // construction ("end paths after the check they guard"), asserting first that reaching
+            // this point was expected.  Message::from_reader_with_ctx builds its second reader right
+            // after the CRC gate, immediately before the (expensive) DF payload parse.
+            #[cfg(kani)]
+            unsafe {
+                crate::verif_hooks::READERS += 1;
+                if crate::verif_hooks::CUT_AT != 0 && crate::verif_hooks::READERS == crate::verif_hooks::CUT_AT {
+                    crate::verif_hooks::CUT_REACHED = true;
+                    assert!(crate::verif_hooks::CUT_EXPECTED, "PROP: the cut point (second reader = past the CRC gate) is reached only when the harness expects it");
+                    kani::assume(false);
+                }
+            }
             Self { inner, left_len: 0, last_bits_read_amt: 0, bits_read: 0 }
         }
         #[inline]
